@@ -1,7 +1,7 @@
 (* Entry point of the extracted runner: [run fn arg].  The Python side finds function
    numbers by parsing the "(* FN name *)" comments below. *)
 From Coq Require Import ZArith List.
-From PyCraft Require Import Base.Res Base.Sx Model.VarInt Model.Versions.
+From PyCraft Require Import Base.Res Base.Sx Model.VarInt Model.Versions Model.Position.
 Import ListNotations.
 Open Scope Z_scope.
 
@@ -22,6 +22,10 @@ Definition of_tables (t : tables) : sx :=
 (* release-ness of an id: looked up among the ids the harness classified *)
 Definition rel_in (rel_ids : list Z) (vid : Z) : bool := memZ vid rel_ids.
 
+(* ---- positions ---- *)
+Definition of_triple (t : Z * Z * Z) : sx := let '(x, y, z) := t in L [I x; I y; I z].
+Definition of_quad (t : Z * Z * Z * Z) : sx := let '(x, y, z, s) := t in L [I x; I y; I z; I s].
+
 Definition run (fn : Z) (a : sx) : sx :=
   match fn with
   | 1 => (* FN varint_read : (maxb bytes) *)
@@ -41,5 +45,20 @@ Definition run (fn : Z) (a : sx) : sx :=
   | 13 => (* FN in_range_batch : (indices triples(pv start end)) *)
       let idx := sx_pairs (sx_nth a 0) in
       L (map (fun t => of_res of_bool (ctx_in_range idx (sx_z (sx_nth t 0)) (sx_z (sx_nth t 1)) (sx_z (sx_nth t 2)))) (sx_list (sx_nth a 1)))
+  | 20 => (* FN pos_batch : (later triples) -> list of (word unword) *)
+      let later := sx_bool (sx_nth a 0) in
+      L (map (fun t => let w := pos_word later (sx_z (sx_nth t 0)) (sx_z (sx_nth t 1)) (sx_z (sx_nth t 2)) in
+                       L [I w; of_triple (pos_unword later w)]) (sx_list (sx_nth a 1)))
+  | 21 => (* FN pos_unword_batch : (later words) *)
+      let later := sx_bool (sx_nth a 0) in L (map (fun w => of_triple (pos_unword later (sx_z w))) (sx_list (sx_nth a 1)))
+  | 22 => (* FN csp_batch : (triples) -> list of (word unword) *)
+      L (map (fun t => let w := csp_word (sx_z (sx_nth t 0)) (sx_z (sx_nth t 1)) (sx_z (sx_nth t 2)) in
+                       L [I w; of_triple (csp_unword w)]) (sx_list a))
+  | 23 => (* FN csp_unword_batch : (words) *)
+      L (map (fun w => of_triple (csp_unword (sx_z w))) (sx_list a))
+  | 24 => (* FN rec_batch : (quads x y z sid) -> list of (word unword hbyte unhbyte) *)
+      L (map (fun t => let x := sx_z (sx_nth t 0) in let y := sx_z (sx_nth t 1) in let z := sx_z (sx_nth t 2) in
+                       let sid := sx_z (sx_nth t 3) in let w := rec_word x y z sid in let h := rec_hbyte x z in
+                       L [I w; of_quad (rec_unword w); I h; L [I (fst (rec_unhbyte h)); I (snd (rec_unhbyte h))]]) (sx_list a))
   | _ => L [I 99]
   end.
